@@ -2,6 +2,7 @@ import Rtsp.Proofs.Peer.ClientHist
 import Rtsp.Proofs.Peer.SessionThm
 import Rtsp.Proofs.Peer.History
 import Rtsp.Proofs.Peer.RegInv
+import Rtsp.Proofs.Peer.PinInv
 /-
 Property C19 — media and control are bound to the negotiated peer.
 
@@ -18,7 +19,8 @@ nothing is bounded.
   UDP + sessions  delivered_only_if_negotiated (invariant over all histories of the whole server)
   control         other_ip_rejected_unchanged, other_conn_rejected_unchanged,
                   linked_only_to_own_address (invariant over all histories),
-                  driven_only_from_author_address (non-interference in every reachable state)
+                  driven_only_from_author_address (non-interference in every reachable state),
+                  pinned_iff_streaming_interleaved, interleaved_session_obeys_only_its_connection
   structure       facts_hold (the regenerated structural facts the models rely on)
 -/
 namespace Rtsp.Peer.C19
@@ -345,6 +347,54 @@ example :
     (Server.runEvs true evs).findConn 2 = some ⟨2, [10,0,0,6], "", none⟩ ∧
     ((Server.runEvs true evs).findSession 0).isSome = true ∧
     ((Server.runEvs true evs).findConn 0).map (·.session) = some (some 0) := by decide
+
+/-- **A session is pinned to a connection exactly while it streams over an interleaved connection**, in
+every reachable state; and the pinned connection, as long as it lives, is attached to the session. -/
+theorem pinned_iff_streaming_interleaved (udp : Bool) (evs : List Server.Ev) (sid : Nat) (ss : Session)
+    (hf : (Server.runEvs udp evs).findSession sid = some ss) :
+    (ss.tcpConn.isSome = true ↔ ((ss.state = .play ∨ ss.state = .record) ∧ ss.transport = some .tcp)) ∧
+    (∀ v, ss.tcpConn = some v → v ∈ ss.conns ∨ (Server.runEvs udp evs).findConn v = none) :=
+  ⟨(Server.pinInv_runEvs udp evs).pin sid ss hf,
+   fun v hv => ((Server.pinInv_runEvs udp evs).att sid ss v hf hv).1⟩
+
+/-- **While a session streams over an interleaved connection only that connection can drive it** – the
+reachable-state form of `other_conn_rejected_unchanged`, without any assumption about the pin: in every
+reachable state, for every session `ss` in state PLAY or RECORD over TCP there is a connection `v` such
+that, as long as `v` lives, every request with the session's id from any other live connection `c`
+(already linked to the session, or unlinked and from the author's address) is answered 400 and leaves
+state, transport, set-up medias, the pin, every other session, every other connection and both UDP
+listeners as they were. -/
+theorem interleaved_session_obeys_only_its_connection (udp : Bool) (evs : List Server.Ev) (sid : Nat) (ss : Session)
+    (hf : (Server.runEvs udp evs).findSession sid = some ss)
+    (hs : ss.state = .play ∨ ss.state = .record) (ht : ss.transport = some .tcp) :
+    ∃ v, ss.tcpConn = some v ∧
+      ∀ cv, (Server.runEvs udp evs).findConn v = some cv →
+      ∀ (c : Conn) (r : Req) (now : Int), (Server.runEvs udp evs).findConn c.id = some c → c.id ≠ v →
+        r.sid = some sid →
+        (c.session = some sid ∨ (c.session = none ∧ ipEqual c.ip ss.authorIP = true ∧ c.zone = ss.authorZone)) →
+        let res := (Server.runEvs udp evs).request c.id r now
+        res.2 = 400 ∧
+        res.1.findSession sid = some { ss with lastReq := now, conns := ss.conns.filter (· != c.id) } ∧
+        (∀ sid', sid' ≠ sid → res.1.findSession sid' = (Server.runEvs udp evs).findSession sid') ∧
+        res.1.conns = (Server.runEvs udp evs).conns.filter (fun x => x.id != c.id) ∧
+        res.1.rtp = (Server.runEvs udp evs).rtp ∧ res.1.rtcp = (Server.runEvs udp evs).rtcp := by
+  obtain ⟨hpin, hatt⟩ := pinned_iff_streaming_interleaved udp evs sid ss hf
+  have hsome := hpin.2 ⟨hs, ht⟩
+  obtain ⟨v, hv⟩ := Option.isSome_iff_exists.1 hsome
+  refine ⟨v, hv, ?_⟩
+  intro cv hcv c r now hc hne hr hlink
+  have hmem : v ∈ ss.conns := by
+    rcases hatt v hv with a | a
+    · exact a
+    · rw [hcv] at a; cases a
+  exact other_conn_rejected_unchanged _ c ss sid v r now hc hf hr hlink hv (fun e => hne e.symm) hmem
+
+/-- non-vacuity: `svPinned` is reachable, its session streams over TCP and its pinned connection lives -/
+example :
+    let evs : List Server.Ev := [.open 0 [10,0,0,5] "", .req 0 { method := .setup, proto := .tcp, media := 0 } 1,
+      .req 0 { method := .play, sid := some 0 } 2, .open 1 [0,0,0,0,0,0,0,0,0,0,0xff,0xff,10,0,0,5] ""]
+    ((Server.runEvs true evs).findSession 0).map (fun s => (s.state, s.transport, s.tcpConn)) = some (.play, some .tcp, some 0) ∧
+    ((Server.runEvs true evs).findConn 0).isSome = true ∧ ((Server.runEvs true evs).findConn 1).isSome = true := by decide
 
 /-! ## UDP and sessions together -/
 
